@@ -1260,6 +1260,13 @@ pub async fn gen_wire(sim: &mut Sim, rng: &mut Prng, stats: &mut Stats, name: &s
             };
             sim.decode(&bytes);
             sim.wire_check(&bytes);
+            if rng.chance(1, 3) {
+                // every cut inside the header, the message tag and the first length field
+                for n in 0..bytes.len().min(9) {
+                    sim.decode(&bytes[..n]);
+                }
+                stats.bump("wire_all_short_prefixes");
+            }
         }
         _ => {
             // malformed / hostile
